@@ -104,7 +104,7 @@ def attribute(blocks, ranges, unit):
     per_fn = {}
     for b in blocks:
         fn = None
-        for m in re.finditer(r"--> %s\.rs:(\d+):" % re.escape(unit), b):
+        for m in re.finditer(r"--> (?:\S*/)?%s\.rs:(\d+):" % re.escape(unit), b):
             ln = int(m.group(1))
             cands = [(l1 - l0, name) for name, l0, l1 in ranges if l0 <= ln <= l1]
             if cands:
@@ -192,9 +192,10 @@ def run_unit(unit, twin=None):
             else:
                 errs = per_fn_err.get(name, [])
                 txt = "\n".join(errs)
-                if errs and FAILED_PAT.search(txt) and not re.search(r"resource limit|rlimit", txt, re.I):
+                definite = [e for e in errs if FAILED_PAT.search(e) and not re.search(r"resource limit|rlimit", e, re.I)]
+                if definite:
                     ob["status"] = "failed"
-                    ob["failed_checks"] = [{"msg": e.splitlines()[0] + " @ " + (re.search(r"--> \S+", e).group(0) if re.search(r"--> \S+", e) else ""),
+                    ob["failed_checks"] = [{"msg": e.splitlines()[0] + " @ " + (re.search(r"--> (\S+)", e).group(1).split("/")[-1] if re.search(r"--> \S+", e) else ""),
                                             "kind": "failed"} for e in errs][:6]
                     ob["verifier_output"] = txt[:6000]
                 else:
@@ -252,7 +253,18 @@ def run_units(units, pid, tier):
                             "reason": why})
     extraction = []
     for u in units:
+        flt = None
+        if isinstance(u, (tuple, list)):
+            u, flt = u
         r = run_unit(u)
+        if flt:
+            keep = []
+            for o in r["obligations"]:
+                name = "::".join(o["id"].split("::")[1:])  # qualified: Type::fn
+                # unit-level (un-attributable) results and lemmas are always kept; functions by filter
+                if o["id"].count("::") == 0 or re.search(flt, name) or o.get("mode") == "proof":
+                    keep.append(o)
+            r["obligations"] = keep
         obligations += r["obligations"]
         if r["cmd"]:
             cmds.append(r["cmd"])
